@@ -55,7 +55,8 @@ Y = {   # lax
     "analysis": {"exclude_patterns": ["dead*.py"]},
     "cbo": {"low_threshold": 5, "medium_threshold": 9},
     "lcom": {"low_threshold": 3, "medium_threshold": 6},
-    "clones": {"similarity_threshold": 0.75},
+    # the file selection of [clones] is not the one `pyscn analyze` uses (that is [analysis]): no front end may apply it (F70)
+    "clones": {"similarity_threshold": 0.75, "exclude_patterns": ["route*.py", "hub*.py"]},
     "output": {"min_complexity": 2},
 }
 Z = {   # pyproject.toml
@@ -63,7 +64,7 @@ Z = {   # pyproject.toml
     "analysis": {"exclude_patterns": ["route*.py"]},
     "cbo": {"low_threshold": 4, "medium_threshold": 6, "show_zeros": True},
     "lcom": {"low_threshold": 4, "medium_threshold": 5},
-    "clones": {"min_lines": 8},
+    "clones": {"min_lines": 8, "exclude_patterns": ["steps*.py"], "recursive": False},
     "dead_code": {"min_severity": "critical"},
 }
 W = {   # the explicitly configured file (PYSCN_CONFIG / --config)
@@ -355,16 +356,6 @@ def run_shell_line(line, n):
 # ----------------------------------------------------------------------------------------------------------------------------------
 # the section
 # ----------------------------------------------------------------------------------------------------------------------------------
-# the one recorded open difference that these projects reach without any history (see known_findings.d/C20.json)
-K_EXCL = "analysis-exclude-patterns-not-applied-by-detect_clones"
-
-
-def without_exclude(cfg):
-    c = {k: dict(v) for k, v in cfg.items()}
-    c.get("analysis", {}).pop("exclude_patterns", None)
-    return {k: v for k, v in c.items() if v}
-
-
 NAMED = [("A,B0", ["A", "B0"]), ("B0,A,B0", ["B0", "A", "B0"]), ("A,C", ["A", "C"]), ("C,A", ["C", "A"]), ("B0,A-pkg,B0", ["B0", "A-pkg", "B0"]),
          ("D,B0", ["D", "B0"]), ("A-pkg,C", ["A-pkg", "C"]), ("A,B1,B0", ["A", "B1", "B0"])]       # quick tier: the first six
 
@@ -405,15 +396,12 @@ class Section:
         self.tg_env = targets(True)
         self.hists = self.generate()
         # every CLI run first (they fill the pool while the servers work), then one thread per server
-        self.mains, self.alts = {}, {}
+        self.mains = {}
         self.cli_pool = ThreadPoolExecutor(max_workers=8)
         for h in self.hists:
             for st in h.steps:
                 fl, cfg = M.cli_flags(st.tgt.sc, st.tool, st.args, None)
                 self.mains[id(st)] = R.cli(st.tgt.sc, fl, cfg, st.tgt.path, pool=self.cli_pool)
-                if st.tool == "detect_clones" and st.tgt.sc.cfg.get("analysis", {}).get("exclude_patterns"):
-                    # what the recorded finding makes the tool do: the same configuration without [analysis] exclude_patterns
-                    self.alts[id(st)] = R.cli(st.tgt.sc, fl, without_exclude(st.tgt.sc.cfg), st.tgt.path, pool=self.cli_pool)
         self.pool = ThreadPoolExecutor(max_workers=12)
         # longest first
         order = sorted(range(len(self.hists)), key=lambda i: -len(self.hists[i].steps))
@@ -469,18 +457,8 @@ class Section:
 
     # -- decision ------------------------------------------------------------------------------------------------------------------
     def verdict(self, st, answer):
-        """None: the answer carries the command line's findings for the step's path and options (or differs from them exactly as the
-        recorded open finding says, which is printed as KNOWN-FINDING); else the first difference."""
-        d = judge(st, answer, self.mains[id(st)].result())
-        if d is None or id(st) not in self.alts:
-            return d
-        kf = self.ck.match_known({"tool": st.tool, "class": K_EXCL})
-        if kf and judge(st, answer, self.alts[id(st)].result()) is None:
-            self.ck.known_finding(kf)
-            k = self.stats["mcp_known_finding_cases"]
-            k[kf["id"]] = k.get(kf["id"], 0) + 1
-            return None
-        return d
+        """None: the answer carries the command line's findings for the step's path and options; else the first difference."""
+        return judge(st, answer, self.mains[id(st)].result())
 
     def fails(self, h, steps):
         answers, _ = play(self.logdir, h.cwd, h.env_config, steps)
